@@ -745,6 +745,16 @@ Definition mutate_here (t : tok) (kind param : N) : tok :=
   | 3 => match t with TL _ l => TL param l | TM _ l => TM param l | _ => t end
   | 4 => match t with TL a (x :: y :: r) => TL a (y :: x :: r) | _ => t end
   | 5 => match t with TN n => TN ((n + param) mod 18446744073709551616) | _ => t end
+  (* 7: one more element than announced at the end of a sequence of numbers (the successor of its last one);
+     8: the second element becomes the first one plus 2^32 (for a handle: the same id, the next generation) *)
+  | 7 => match t with
+         | TL a l => match lastN l with Some (TN n) => TL a (l ++ [TN ((n + 1) mod 18446744073709551616)]) | _ => t end
+         | _ => t
+         end
+  | 8 => match t with
+         | TL a (TN x :: _ :: r) => TL a (TN x :: TN ((x + 4294967296) mod 18446744073709551616) :: r)
+         | _ => t
+         end
   | _ => TL 0 []
   end.
 
